@@ -297,6 +297,17 @@ def r5(ctx, R):
         f = ctx.m.funcs[c.methods["read"]]
         rets = [n for n in ctx.m.walk_own(f.node) if isinstance(n, ast.Return) and n.value is not None]
         verdict = None
+        # a block of a body that is read in several pieces is not text yet: decoding piece by piece
+        # fails (or corrupts) when a multi-byte character lies across two pieces
+        piecewise = None
+        for lp in (n for n in ctx.m.walk_own(f.node) if isinstance(n, (ast.For, ast.While))):
+            reads_in = [x for x in calls_in(lp) if isinstance(x.func, ast.Attribute) and x.func.attr in ("read", "read1", "readinto", "recv") and not (isinstance(x.func.value, ast.Name) and x.func.value.id == "self")]
+            decs_in = [x for x in calls_in(lp) if isinstance(x.func, ast.Attribute) and x.func.attr == "decode" and "decoder" not in unparse(x.func.value).lower()]
+            if reads_in and decs_in:
+                piecewise = decs_in[0]
+        if piecewise is not None:
+            R.violation("C16.R5", f.short, key(f, ctx.m.enclosing_stmt(piecewise)), loc(f, piecewise), "each block read from the stream is decoded on its own: a body whose multi-byte character lies across two blocks raises UnicodeDecodeError (the message and the frames after it are lost) - bytes must be joined first and decoded once")
+            continue
         for r in rets:
             v = deref(ctx, f, r.value)
             # X.decode(...) where X is (a local bound to) <reader>.read(*args)
@@ -305,11 +316,12 @@ def r5(ctx, R):
                 quals = {k.methods[m] for k in stream_classes(ctx) for m in ("read", "readline") if m in k.methods}
                 U = _Units(ctx, f, quals)
                 raw_reads = [x for x in calls_in(f.node) if U._raw_read(x)]
-                if not (isinstance(src, ast.Call) and isinstance(src.func, ast.Attribute) and src.func.attr == "read") and U.unit(v.func.value) == BYT and raw_reads:
+                joined = isinstance(v.func.value, ast.Call) and isinstance(v.func.value.func, ast.Attribute) and v.func.value.func.attr == "join" and isinstance(v.func.value.func.value, ast.Constant) and isinstance(v.func.value.func.value.value, bytes)
+                if not (isinstance(src, ast.Call) and isinstance(src.func, ast.Attribute) and src.func.attr == "read") and (U.unit(v.func.value) == BYT or joined) and raw_reads:
                     # bytes accumulated over several reads of the underlying stream, decoded once at the end
                     src = raw_reads[0]
                 if isinstance(src, ast.Call) and isinstance(src.func, ast.Attribute) and src.func.attr == "read":
-                    passes = any(isinstance(a, ast.Starred) for a in src.args) or any(isinstance(a, ast.Name) and a.id in f.params for a in src.args)
+                    passes = any(isinstance(a, ast.Starred) for a in src.args) or any(isinstance(x, ast.Name) and x.id in f.params for a in src.args for x in ast.walk(a))
                     if passes:
                         enc = v.args[0].value if v.args and isinstance(v.args[0], ast.Constant) else None
                         if enc is None or enc in UTF8:
